@@ -59,3 +59,19 @@ Theorem C03_root_and_counts :
     length (g_edges g) = length (residues b).
 Proof. exact parse_begin_counts. Qed.
 Print Assumptions C03_root_and_counts.
+
+(* the walker as the code has it: Gen/WalkerGen.v is regenerated from TreeWalker.__walk on every run (the dispatch on
+   the number of children and the order of recursive walks, __add_node and __add_edge calls per case); on every parse
+   tree of rule 'branch' it is the hand model, so the counting theorem is about the code as it stands *)
+From GV Require Import Gen.WalkerGen Proofs.WalkerGenThm.
+Theorem C03_regenerated_walker_is_the_model :
+  forall t, shaped t -> forall f p g, walk_gen f t p g = walk f t p g.
+Proof. exact walk_gen_eq. Qed.
+Print Assumptions C03_regenerated_walker_is_the_model.
+
+Theorem C03_regenerated_walker_counts :
+  forall f b d g, shaped b -> parse_begin_with walk_gen f [b; PRes d] = Some g ->
+  length (g_nodes g) = S (length (residues b)) /\ nth_error (g_nodes g) 0 = Some d /\
+  length (g_edges g) = length (residues b).
+Proof. exact parse_begin_gen_counts. Qed.
+Print Assumptions C03_regenerated_walker_counts.
